@@ -3,6 +3,8 @@ package goat
 import (
 	"context"
 	"sync"
+
+	"github.com/avos-io/goat/internal/verifhook"
 )
 
 type demuxConn struct {
@@ -66,6 +68,7 @@ func (gsd *Demux) Run() {
 		}
 		gsd.conns.Unlock()
 
+		verifhook.At("demux.handoff", rpc.GetId())
 		conn.r <- rpc
 	}
 }
